@@ -12,6 +12,7 @@
   chain) is left: `remove_projects_reachable`, `inv_to_mid_reachable`, `run_projects_reachable`.
 -/
 import MW.Lemmas.RemoveMain
+import MW.Lemmas.RemoveHistory
 import MW.Lemmas.LedgerWFCredH
 import MW.Lemmas.PendHistCredRun
 import MW.Lemmas.PendHistEx
@@ -113,6 +114,58 @@ theorem credNodup_removeStep {limit : Nat} {c : Ctx} {w : Wid} {addrs : List Add
     split at h
     · cases h; exact h1
     · cases h; exact h1
+
+-- ------------------------------------------------------------------ C01 worlds, and the end-to-end statement
+
+/-- `remove_projects` after a C01 history (`World` / `Ev` / `runW`: node events and handler steps, no unconfirmed
+    transactions delivered): C01's invariant is `ledger_correct`, (H1) is `credNodup_runW`; (H2) stays a hypothesis
+    here — a reorganisation moves un-confirmed transactions to the pending side, and that they leave it when they
+    confirm again is C09's relation, which is stated for C09's histories (`remove_projects_reachable`) -/
+theorem remove_projects_runW (e : MW.Lemmas.Ledger.Env) (G : Block) (w0 : World) (evs : List Ev) (HR : RunHyp e G w0 evs)
+    (h0 : Inv (e.ctx w0.chain) w0.s w0.chain) (hv0 : w0.v.best = tipMeta w0.chain) (hq0 : w0.queue = [])
+    (hq : (runW e w0 evs).queue = []) (hn0 : KeysNodup w0.s.credits)
+    (hp : ∀ x ∈ (runW e w0 evs).s.pendCred, x.1.1 ∉ idsOf (occs (runW e w0 evs).chain))
+    (limit : Nat) {w : Wid} {addrs : List Addr} {own' : Own}
+    (H : RemHyp (e.ctx (runW e w0 evs).chain) w addrs own' (runW e w0 evs).chain)
+    (ws' : List Wid) (hws : ∀ x ∈ ws', x ∈ e.wallets)
+    {o : StepOut} (h : removeStep limit (e.ctx (runW e w0 evs).chain) w addrs (runW e w0 evs).s = some o)
+    (hf : o.finish = true) :
+    Inv { (e.ctx (runW e w0 evs).chain) with own := own', wallets := ws' } o.s (runW e w0 evs).chain :=
+  remove_projects limit H (ledger_correct e G w0 evs HR h0 hv0 hq0 hq).1 (credNodup_runW e w0 evs hn0) hp ws' hws h hf
+
+/-- the C01 environment of a C09 world: same parameters, keystore view and wallets; the block files of its node -/
+def envOf (E : HEnv) (n : Node) : MW.Lemmas.Ledger.Env := { p := E.p, own := E.own, wallets := E.wallets, known := n.known }
+
+theorem envOf_ctx (E : HEnv) (n : Node) : (envOf E n).ctx n.chain = E.ctx n := by cases n; rfl
+
+/-- END TO END: any C09 history inside the domain (receive / connect / disconnect …) from a world satisfying C09's
+    invariant with a well-formed credit bucket, ending with the wallet in sync with its node; then wallet `w` is
+    removed (finishing step); then ANY C01 history of node events and handler steps in the environment without
+    `w`'s keystore.  Whenever no notification is pending, the wallet holds exactly the books of the node's best chain
+    for the remaining keystores.  (`remove_then_history_correct` with its three store hypotheses discharged.) -/
+theorem remove_then_history_correct_reachable {rank : TxId → Nat} {E : HEnv} (evs : List HEv) (w0 : HW)
+    (H0 : HInvC rank E w0) (hn0 : KeysNodup w0.s.credits) (hD : ∀ x ∈ worldsH E w0 evs, HOKc rank E x.1 x.2)
+    {W : HW} (hW : W = runH E w0 evs) (hsync : W.node.chain = W.sp.chain)
+    (limit : Nat) {w : Wid} {addrs : List Addr} {own' : Own} (H : RemHyp (E.ctx W.node) w addrs own' W.sp.chain)
+    {o : StepOut} (h : removeStep limit (E.ctx W.node) w addrs W.s = some o) (hf : o.finish = true)
+    (G : Block) (v : Vol) (hv : v.best = tipMeta W.sp.chain) (evs' : List Ev)
+    (HR : RunHyp (MW.Lemmas.RemoveHistory.envMinus (envOf E W.node) own') G
+      { chain := W.sp.chain, queue := [], s := o.s, v := v } evs') :
+    (runW (MW.Lemmas.RemoveHistory.envMinus (envOf E W.node) own')
+        { chain := W.sp.chain, queue := [], s := o.s, v := v } evs').queue = [] →
+      Inv ((MW.Lemmas.RemoveHistory.envMinus (envOf E W.node) own').ctx
+            (runW (MW.Lemmas.RemoveHistory.envMinus (envOf E W.node) own')
+              { chain := W.sp.chain, queue := [], s := o.s, v := v } evs').chain)
+          (runW (MW.Lemmas.RemoveHistory.envMinus (envOf E W.node) own')
+            { chain := W.sp.chain, queue := [], s := o.s, v := v } evs').s
+          (runW (MW.Lemmas.RemoveHistory.envMinus (envOf E W.node) own')
+            { chain := W.sp.chain, queue := [], s := o.s, v := v } evs').chain := by
+  have hr := reachable_ready evs w0 H0 hn0 hD
+  rw [← hW] at hr
+  have hc : (envOf E W.node).ctx W.sp.chain = E.ctx W.node := by rw [← hsync]; exact envOf_ctx E W.node
+  rw [← hc] at H h hr
+  intro hq
+  exact (MW.Lemmas.RemoveHistory.remove_then_history_correct limit H hr.1 hr.2.1 hr.2.2 h hf v hv evs' HR hq).1
 
 -- ------------------------------------------------------------------ non-vacuity: the concrete history of PendHistEx
 
